@@ -4,6 +4,7 @@ package props
 
 import (
 	"bytes"
+	"io"
 	"reflect"
 	"sort"
 	"strings"
@@ -328,10 +329,10 @@ func checkC12(c CaseC12, info *Info) *Failure {
 					gotDoc, gerr := x2j.XmlNewXml(xb, pairs...)
 					same := (gerr == nil) == (werr == nil)
 					if same && gerr == nil {
-						gm, e1 := mxj.NewMapXml(gotDoc)
-						wm2, e2 := mxj.NewMapXml(wantDoc)
-						// values gathered through a wildcard come in map-iteration order: lists are compared as multisets
-						same = (e1 == nil) == (e2 == nil) && (e1 != nil || canon(sortLists(map[string]interface{}(gm))) == canon(sortLists(map[string]interface{}(wm2))))
+						// a new Map that is one key holding a list is written as several root elements: all of them are
+						// decoded; values gathered through a wildcard come in map-iteration order, so lists (and the
+						// sequence of roots) are compared as multisets
+						same = canon(sortLists(decodeAllXML(gotDoc))) == canon(sortLists(decodeAllXML(wantDoc)))
 					}
 					if !same {
 						return failf("wrapper-mismatch", "x2j.XmlNewXml(%s, %q) = %s (%v); NewMapXml + NewMap + Xml gives %s (%v)", xb, pairs, gotDoc, gerr, wantDoc, werr)
@@ -419,4 +420,21 @@ func sortLists(v interface{}) interface{} {
 		return out
 	}
 	return v
+}
+
+// decodeAllXML decodes every root element of a text (a document, or the concatenation a root-less Map encodes to).
+func decodeAllXML(doc []byte) []interface{} {
+	var out []interface{}
+	r := bytes.NewReader(doc)
+	for i := 0; i < 10000; i++ {
+		m, err := mxj.NewMapXmlReader(r)
+		if err != nil {
+			if err != io.EOF {
+				out = append(out, "error: "+err.Error())
+			}
+			break
+		}
+		out = append(out, map[string]interface{}(m))
+	}
+	return out
 }
